@@ -20,19 +20,19 @@ func init() {
 	generators = append(generators, generator{name: "Edt", run: genEdt, fallback: edtFallback})
 }
 
-// evalConst evaluates literals, byte(x)/uint16(x)/int(x) conversions, math.MaxXxx selectors and + - of those.
-func evalConst(e ast.Expr) (constant.Value, bool) {
+// edtEvalConst evaluates literals, byte(x)/uint16(x)/int(x) conversions, math.MaxXxx selectors and + - of those.
+func edtEvalConst(e ast.Expr) (constant.Value, bool) {
 	switch x := e.(type) {
 	case *ast.BasicLit:
 		v := constant.MakeFromLiteral(x.Value, x.Kind, 0)
 		return v, v.Kind() != constant.Unknown
 	case *ast.ParenExpr:
-		return evalConst(x.X)
+		return edtEvalConst(x.X)
 	case *ast.CallExpr:
 		if id, ok := x.Fun.(*ast.Ident); ok && len(x.Args) == 1 {
 			switch id.Name {
 			case "byte", "uint8", "uint16", "uint32", "uint64", "int", "int64", "uint":
-				return evalConst(x.Args[0])
+				return edtEvalConst(x.Args[0])
 			}
 		}
 	case *ast.SelectorExpr:
@@ -44,8 +44,8 @@ func evalConst(e ast.Expr) (constant.Value, bool) {
 			}
 		}
 	case *ast.BinaryExpr:
-		a, ok1 := evalConst(x.X)
-		b, ok2 := evalConst(x.Y)
+		a, ok1 := edtEvalConst(x.X)
+		b, ok2 := edtEvalConst(x.Y)
 		if ok1 && ok2 && (x.Op == token.ADD || x.Op == token.SUB) {
 			return constant.BinaryOp(a, x.Op, b), true
 		}
@@ -74,7 +74,7 @@ func findCmp(f *ast.File, fn, lhs string, op token.Token) (uint64, error) {
 			if exprName(be.X) != lhs {
 				return true
 			}
-			if v, ok := evalConst(be.Y); ok {
+			if v, ok := edtEvalConst(be.Y); ok {
 				if u, ok := constant.Uint64Val(constant.ToInt(v)); ok {
 					res, found = u, true
 				}
@@ -123,7 +123,7 @@ func genEdt() (string, error) {
 				if !strings.HasPrefix(n.Name, "edt") || i >= len(vs.Values) {
 					continue
 				}
-				v, ok := evalConst(vs.Values[i])
+				v, ok := edtEvalConst(vs.Values[i])
 				if !ok {
 					return "", fmt.Errorf("cannot evaluate %s", n.Name)
 				}
